@@ -168,7 +168,7 @@ void make_items(const Options& o, std::vector<Item>& items)
         // exclusive side with locking enabled
         if (!in.enabled || in.deferred || in.name.rfind("atomic_guarded", 0) == 0) continue;
         std::vector<OpI> al;
-        for (int c : {X_LOCK, X_LOCK_UNLOCK, X_TRY, X_TRY_FOR, X_TRY_UNTIL, LOAD, STORE, ASSIGN, MODIFY, MODIFY_RET, CONVERT, X_RETRY, X_HANDOVER})
+        for (int c : {X_LOCK, X_LOCK_UNLOCK, X_TRY, X_TRY_FOR, X_TRY_UNTIL, LOAD, STORE, ASSIGN, MODIFY, MODIFY_RET, CONVERT, X_RETRY, X_HANDOVER, X_TRY_UNLOCK})
             if (in.has(c)) al.push_back(OpI{(uint8_t)c, (c == STORE || c == ASSIGN) ? -1 : 0});
         auto any = [](const Prog&) { return true; };
         gen(o, items, ii, al, {1, 1}, 3, 6, any);
@@ -188,7 +188,7 @@ void make_items(const Options& o, std::vector<Item>& items)
         if (!in.enabled || !in.has_shared_side) continue;
         std::vector<OpI> al;
         for (int c : {X_LOCK, X_TRY, X_TRY_FOR, STORE, MODIFY, MOD_DETACH, MOD_ASYNC, S_LOCK, S_TRY, S_TRY_FOR, S_TRY_UNTIL,
-                      S_CONST_LOCK, READ, READ_RET, LOAD, S_RETRY, S_HANDOVER})
+                      S_CONST_LOCK, READ, READ_RET, LOAD, S_RETRY, S_HANDOVER, S_TRY_UNLOCK})
             if (in.has(c))
                 al.push_back(OpI{(uint8_t)c, (c == STORE || c == MOD_DETACH || c == MOD_ASYNC) ? -1 : 0});
         auto mixed = [](const Prog& p) {
